@@ -26,6 +26,7 @@ RULE = (
     "(file, line) executed while a handler that writes, indents, renders a table and asks a question is on the stack, x 3 "
     "exception types. Judged: run returns an int in 0..255 and raises nothing; 0 iff falsy result; clamp(int(result)) otherwise; "
     "status >= 1 and a report containing the message for every exception; exactly one invocation of the selected handler "
+    "Also: every way of failing x every markup-like message class once (stratified); handlers raising inside indentation scopes; exception types that provide a solution with markup-like texts. "
     "with the arguments of an independent parse. non-trivial = outcome other than None/0; distinct by (outcome class, "
     "message class, verbosity, listener, stream kind) / injection point."
 )
